@@ -23,9 +23,13 @@ package actionlint
 //@ lemma ysub_array: forall v: RawYAMLValue, s: RawYAMLValue :: istype(v, "*RawYAMLArray") && !(istype(s, "*RawYAMLString") && hasexpr(dyn(s, "*RawYAMLString").Value)) ==> (ysub(v, s) <==> (istype(s, "*RawYAMLArray") && len(dyn(v, "*RawYAMLArray").Elems) == len(dyn(s, "*RawYAMLArray").Elems) && (forall j :: 0 <= j && j < len(dyn(v, "*RawYAMLArray").Elems) ==> ysub(dyn(v, "*RawYAMLArray").Elems[j], dyn(s, "*RawYAMLArray").Elems[j]))))
 //@ lemma ysub_object: forall v: RawYAMLValue, s: RawYAMLValue :: istype(v, "*RawYAMLObject") && !(istype(s, "*RawYAMLString") && hasexpr(dyn(s, "*RawYAMLString").Value)) ==> (ysub(v, s) <==> (istype(s, "*RawYAMLObject") && (forall k: string :: dyn(s, "*RawYAMLObject").Props.has(k) ==> (dyn(v, "*RawYAMLObject").Props.has(k) && ysub(dyn(v, "*RawYAMLObject").Props[k], dyn(s, "*RawYAMLObject").Props[k])))))
 
+// hasexpr(s): some "${{" of s has a "}}" behind it - equivalently, the first "${{" has one (the definition; the
+// body is verified against it, a "}}" in front of the placeholder is not a reason to miss it)
+//@ lemma hasexpr_def: forall s: string :: hasexpr(s) <==> (index(s, "${{") >= 0 && index(s[index(s, "${{")..len(s)], "}}") >= 0)
 //@ func ContainsExpression
+//@   props C19 C03 C06
+//@   uses hasexpr_def
 //@   ensures result == hasexpr(s)
-//@   trusted the text-level definition of "contains ${{ }}" is the specification of hasexpr
 
 //@ func (*RawYAMLString).Equals
 //@   props C19
